@@ -35,6 +35,11 @@ func checkC13(c *Ctx) {
 	ruleSpecBoundsFor(c, "C13")
 }
 
+// lpAPI: the primitive methods of lineParser the rules know the meaning of; any other method is analysed as a helper.
+var lpAPI = map[string]bool{"Indent": true, "ConsumeIndent": true, "Advance": true, "ConsumeLine": true, "CollectInline": true, "EndBlock": true,
+	"MorphSetext": true, "BytesAfterIndent": true, "IsRestBlank": true, "ContainerKind": true, "TipKind": true, "ContainerListDelim": true,
+	"ContainerIndent": true, "ListItemContainerHasChildren": true, "ContainerCodeFence": true, "ContainerHTMLCondition": true, "SetContainerIndent": true}
+
 // positionMoving: lineParser methods that move the cursor.
 var positionMovingLP = map[string]bool{"Advance": true, "ConsumeIndent": true, "ConsumeLine": true, "CollectInline": true}
 
@@ -184,6 +189,10 @@ func ruleOpenAtMarker(c *Ctx) {
 		walk = func(b *ssa.BasicBlock, from int, s pst) {
 			for _, in := range b.Instrs[from:] {
 				call, name := lpCall(in)
+				if call != nil && !lpAPI[name] && !isOpenLP(name) {
+					// a method of the line parser that is not part of its primitive API: a helper like any other
+					call = nil
+				}
 				if call == nil {
 					// a helper that is handed the parser may move the cursor
 					if ci, ok := in.(ssa.CallInstruction); ok {
